@@ -89,7 +89,15 @@ class Ctx(object):
             return self.cache[key]
 
     def inc_flags(self, overlays=(), extra=()):
-        dirs = list(overlays) + [self.pdir, os.path.join(VERIF, "vp", "include")]
+        dirs = []
+        for o in overlays:
+            # an overlay copy of a public header (parsec/include/parsec/*.h) must shadow the
+            # repository's parsec/include directory too, not only the repository root
+            oi = os.path.join(o, "parsec", "include")
+            if os.path.isdir(oi):
+                dirs.append(oi)
+            dirs.append(o)
+        dirs += [self.pdir, os.path.join(VERIF, "vp", "include")]
         dirs += list(extra) + self.cfg_incs
         dirs += [os.path.join(self.repo, "parsec", "include"), self.repo] + MPI_INCS
         return ["-I" + d for d in dirs]
